@@ -1,41 +1,66 @@
-(* F_C18_save — machine-checked counterexamples to the full-strength C18 statements about save()
-   on the model instantiated with the facts regenerated from neurodiffeq/solvers_utils.py
-   (known findings C18 save/... : get_conditions works on `condition.__dict__` itself).
-   Never gates a check: if the source is repaired this file stops compiling. *)
+(* F_C18_save — HISTORICAL: machine-checked counterexamples to the full-strength C18 statements
+   about save() for the tree BEFORE fix commit 90081b1 (get_conditions worked on
+   `condition.__dict__` itself; known findings F3a-d, status fixed).
+   The facts of the old tree are written out below (`old_facts`); nothing here depends on the
+   generated Gen_C18.v, only on the hand-written model/Persist.v.  Never gates a check. *)
 From Coq Require Import String.
 From Coq Require Import List ZArith QArith Bool.
 From ND.model Require Import Persist.
-From ND.gen Require Import Gen_C18.
-From ND.proofs Require Import C18_persist.
 Import ListNotations.
 Close Scope Q_scope.
 Local Open Scope nat_scope.
+Local Open Scope string_scope.
 
-Example get_conditions_works_on_the_alias : sf_aliased facts = true /\ sf_touch_before_dump facts = true.
-Proof. split; reflexivity. Qed.
+Definition old_save_dict : list (string * string) :=
+  [("metrics", "self.metrics_fn"); ("loss_fn", "self.loss_fn"); ("conditions", "self.conditions");
+   ("global_epoch", "self.global_epoch"); ("nets", "self.nets"); ("best_nets", "self.best_nets");
+   ("optimizer", "self.optimizer"); ("optimizer_state", "self.optimizer.state_dict()");
+   ("optimizer_class", "optimizer_class"); ("diff_eqs", "self.diff_eqs");
+   ("diff_equation_details", "diff_equation_details"); ("generator", "self.generator");
+   ("train_loss_history", "self.metrics_history['train_loss']");
+   ("valid_loss_history", "self.metrics_history['valid_loss']"); ("type", "self.__class__");
+   ("type_name", "self.__class__.__name__"); ("parent_type_name", "self.__class__.__bases__[0].__name__");
+   ("solver", "self")].
+
+Definition common_args : list (string * string) :=
+  [("conditions", "file:conditions"); ("metrics", "file:metrics"); ("nets", "file:nets");
+   ("optimizer", "relinked(file:optimizer_class,file:optimizer_state)|file:optimizer");
+   ("train_generator", "file:generator.train.generator"); ("valid_generator", "file:generator.valid.generator")].
+
+Definition old_ctor : list (string * list (string * string)) :=
+  [("Solver1D", ("ode_system", "file:diff_eqs") :: ("loss_fn", "file:loss_fn") :: common_args);
+   ("Solver2D", ("pde_system", "file:diff_eqs") :: ("loss_fn", "file:loss_fn") :: common_args);
+   ("BundleSolver1D", ("ode_system", "file:diff_eqs") :: common_args)].   (* neither eq_param_index nor loss_fn *)
+
+Definition old_restores : list (string * string) :=
+  [("best_nets", "file:best_nets"); ("metrics_history['train_loss']", "file:train_loss_history");
+   ("metrics_history['valid_loss']", "file:valid_loss_history")].          (* no lowest_loss *)
+
+(* aliased = true: cond_dict = condition.__dict__ *)
+Definition old_facts : srcfacts := mkFacts true true true true old_save_dict old_ctor old_restores.
+
+Local Close Scope string_scope.
 
 (* a Solver2D whose only condition holds one number and one lambda with retrievable source *)
 Definition c0 : cond := mkCond 7 [("x_min"%string, ANum 0 1); ("x_min_val"%string, AFun 1 true)].
 Definition s0 : state := mkState K2D [11%Z] 5%Z [] [] None None [c0] 0 0 [].
 
-(* save() alters the solver even when serialisation FAILS *)
-Theorem C18_save_preserves_refuted : exists s ok, ok = false /\ fst (save facts s ok) <> s.
+(* save() altered the solver even when serialisation FAILED *)
+Theorem old_save_preserves_refuted : exists s ok, ok = false /\ fst (save old_facts s ok) <> s.
 Proof. exists s0, false. split; [reflexivity|]. vm_compute. discriminate. Qed.
 
-(* ... and a condition that only holds numbers is altered too (condition_type is added) *)
-Theorem C18_save_preserves_numbers_refuted :
-  exists s, Forall plain_cond (conds s) /\ fst (save facts s false) <> s.
+(* ... also a condition that only holds numbers (condition_type was added) *)
+Theorem old_save_preserves_numbers_refuted :
+  exists s, fst (save old_facts s false) <> s /\ conds s = [mkCond 3 [("t_0"%string, ANum 0 1)]].
 Proof.
-  exists (mkState K1D [11%Z] 5%Z [] [] None None [mkCond 3 [("t_0"%string, ANum 0 1)]] 0 0 []). split.
-  - repeat constructor. intros kv [H|[]]. subst. reflexivity.
-  - vm_compute. discriminate.
+  exists (mkState K1D [11%Z] 5%Z [] [] None None [mkCond 3 [("t_0"%string, ANum 0 1)]] 0 0 []).
+  split; [vm_compute; discriminate | reflexivity].
 Qed.
 
-(* the function attribute has become its source text: what enforce() reads has changed, in the
-   solver in memory and in the solver that load returns *)
-Theorem C18_load_save_solutions_refuted :
-  exists s f l, snd (save facts s true) = Some f /\ load facts f = Some l /\ solution l false <> solution s false
-                /\ map cond_sem (conds (fst (save facts s true))) <> map cond_sem (conds s).
+(* the function attribute had become its source text, in memory and in the loaded solver *)
+Theorem old_load_save_solutions_refuted :
+  exists s f l, snd (save old_facts s true) = Some f /\ load old_facts f = Some l /\ solution l false <> solution s false
+                /\ map cond_sem (conds (fst (save old_facts s true))) <> map cond_sem (conds s).
 Proof.
   exists s0. eexists. eexists. split; [reflexivity|]. split; [vm_compute; reflexivity|].
   split; vm_compute; discriminate.
